@@ -8,20 +8,26 @@
 (* BlockNtfns.tla and (b) on every step of every trace observed on the     *)
 (* real code (strict replays and free-running executions).                 *)
 (*                                                                         *)
-(* Events are numbered 1,2,3,... in emission order (the number is carried  *)
-(* in the notification's height).  The scripted NotificationSource answers *)
-(* NotificationsSinceHeight(h) at a moment when k events have been emitted *)
-(* with Backlog(h,k) (nothing for h = 0, as blockManager does).            *)
+(* Events (Connected and Disconnected ones) are numbered 1,2,3,... in      *)
+(* emission order; the number is the event's id (carried in the header     *)
+(* nonce; the notification's height is the block height).  The scripted    *)
+(* NotificationSource keeps the chain (a Connected event extends it, a     *)
+(* Disconnected one removes its tip) and answers NotificationsSinceHeight  *)
+(* (h) with the Connected events of the blocks at heights h+1..tip of the  *)
+(* chain as it is at that moment (nothing for h = 0, as blockManager       *)
+(* does); that answer is logged in the Subscribe step (bl).                *)
 (*                                                                         *)
 (*   obs = [emitted, stopped, sub, recv, closed, len]                      *)
 (*         recv[s]   sequence of event numbers consumer s has read         *)
 (*         closed[s] 1 once consumer s has read "channel closed"           *)
-(*   act = [op, s, h, s2, h2, k, res]   (s2, h2 only used by Subscribe2)   *)
-(*     Subscribe  s, h = requested height, k = tip the source reported,    *)
+(*   act = [op, s, h, bl, s2, h2, bl2, k, res] (s2,h2,bl2: Subscribe2 only)*)
+(*     Subscribe  s, h = requested height, bl = the backlog the source      *)
+(*                answered (event ids), k = events emitted at that moment, *)
 (*                res ok | err | stopped | blocked                         *)
 (*     Subscribe2 two NewSubscription calls in flight together (s,h served  *)
 (*                first, then s2,h2), k = the tip both were told, res ok   *)
 (*     Emit       k = number of the last event of the burst, res ok|blocked*)
+(*     EmitD      the same for a burst of Disconnected events (a re-org)   *)
 (*     Read       s, h = items asked for, k = last item read,              *)
 (*                res ok | closed | empty                                  *)
 (*     Cancel     s, res ok | blocked      (logged when Cancel() returned) *)
@@ -39,18 +45,19 @@ EXTENDS Integers, Sequences, FiniteSets
 
 Range(a, b) == [i \in 1..(b - a + 1) |-> a + i - 1]     \* <<a, ..., b>>, empty if b < a
 
-Backlog(h, k) == IF h = 0 \/ h >= k THEN <<>> ELSE Range(h + 1, k)
-
 IsPrefix(p, q) == Len(p) <= Len(q) /\ \A i \in 1..Len(p) : p[i] = q[i]
 
 Bit(mask, s) == (mask \div (2 ^ (s - 1))) % 2 = 1
 
-\* What subscriber r = [s, h, k] is owed once n events have been emitted.
-ExpR(r, n) == Backlog(r.h, r.k) \o Range(r.k + 1, n)
+\* What subscriber r = [s, bl, k] is owed once n events have been emitted: the
+\* backlog the source answered at registration (bl, the ids of the Connected
+\* events of the blocks then at heights h+1..tip), then every event emitted
+\* after the k events that had been emitted at registration.
+ExpR(r, n) == r.bl \o Range(r.k + 1, n)
 
 ----------------------------------------------------------------------------
 AbsInit == [emitted |-> 0,
-            reg     |-> {},      \* {[s, h, k]} successful registrations
+            reg     |-> {},      \* {[s, bl, k]} successful registrations
             ended   |-> {},      \* {<<s, emitted when Cancel/Stop returned>>}
             stopping |-> 0,      \* Stop() has been called
             stopped |-> 0, quiesced |-> 0, skip |-> 0]
@@ -61,16 +68,16 @@ LimOf(a, s)   == IF IsEnded(a, s) THEN (CHOOSE e \in a.ended : e[1] = s)[2]
 
 AbsNext(a, act, o2) ==
   CASE act.op = "Subscribe" /\ act.res = "ok" ->
-         [a EXCEPT !.reg = @ \cup {[s |-> act.s, h |-> act.h, k |-> act.k]},
+         [a EXCEPT !.reg = @ \cup {[s |-> act.s, bl |-> act.bl, k |-> act.k]},
                    !.ended = IF a.stopped = 1 /\ ~IsEnded(a, act.s)
                              THEN @ \cup {<<act.s, a.emitted>>} ELSE @]
     [] act.op = "Subscribe2" /\ act.res = "ok" ->
-         [a EXCEPT !.reg = @ \cup {[s |-> act.s, h |-> act.h, k |-> act.k],
-                                   [s |-> act.s2, h |-> act.h2, k |-> act.k]},
+         [a EXCEPT !.reg = @ \cup {[s |-> act.s, bl |-> act.bl, k |-> act.k],
+                                   [s |-> act.s2, bl |-> act.bl2, k |-> act.k]},
                    !.ended = IF a.stopped = 1
                              THEN @ \cup {<<x, a.emitted>> : x \in {y \in {act.s, act.s2} : ~IsEnded(a, y)}}
                              ELSE @]
-    [] act.op = "Emit" ->
+    [] act.op \in {"Emit", "EmitD"} ->
          [a EXCEPT !.emitted = IF act.k > @ THEN act.k ELSE @]
     [] act.op = "Cancel" /\ act.res = "ok" ->
          \* A Cancel() that returns while Stop() is running may have returned
